@@ -19,6 +19,8 @@ const ENTITIES: [&str; 3] = ["Query", "User", "Pet"];
 const SELECTABLES: [&str; 3] = ["Home", "Avatar", "Card"];
 const FILES: [&str; 3] = ["resolver_reader.ts", "param_type.ts", "entrypoint.ts"];
 const ROOT_FILES: [&str; 3] = ["iso.ts", "tsconfig.json", "extra.ts"];
+/// every name this scenario interns (pre-interned in a fixed order by the worker's warm-up)
+pub const VOCABULARY: [&str; 12] = ["Query", "User", "Pet", "Home", "Avatar", "Card", "resolver_reader.ts", "param_type.ts", "entrypoint.ts", "iso.ts", "tsconfig.json", "extra.ts"];
 
 /// (entity, selectable, file) indices, or (255, 255, root file index); value = content version
 pub type ArtifactSet = BTreeMap<(u8, u8, u8), u8>;
